@@ -1392,8 +1392,12 @@ impl DB {
                     allow_write_delay = false;
                 });
             } else if !force_compaction
-                && (self.memtable().approximate_memory_usage() <= self.options.max_memtable_size())
+                && (self.memtable().approximate_memory_usage() <= self.options.max_memtable_size()
+                    || self.memtable().is_empty())
             {
+                // An empty memtable always has room. Its fixed overhead alone can exceed a very
+                // small `max_memtable_size` and rotating it would only produce another empty
+                // memtable, forever.
                 log::debug!("There is room in the memtable for writes. Proceeding with write.");
                 return Ok(());
             } else if mutex_guard.maybe_immutable_memtable.is_some() {
